@@ -21,7 +21,7 @@ RULE = (
     "distinct = distinct (strategy, relation, pool, seed)"
 )
 ASSUMPTIONS = [
-    "utilities are compared bit-exactly when both runs perform identical floating-point operations (None vs indices) and with rtol 1e-9 / atol 1e-12 "
+    "utilities are compared bit-exactly when both runs perform identical floating-point operations (None vs indices) and with rtol 1e-9 / atol 1e-8 (scikit-learn computes Euclidean distances through dot products, so identical points may be at distance ~1e-10 instead of 0 depending on the other rows) "
     "when the operand order or array shapes differ (feature rows, subsets, permutations); the tolerance is a declared oracle parameter",
     "which strategies score samples independently is a fixed list (below), validated by the restriction test itself; strategies that normalise over the "
     "candidate set or cluster it (FourDs, Clue, DropQuery, Badge, Falcun, ProbCover, RegressionTreeBasedAL[representativity], TypiClust) are outside the restriction clause; "
@@ -44,7 +44,7 @@ def run(spec, data, cand, b, seed):
 
 
 def close(a, b):
-    return a.shape == b.shape and np.array_equal(np.isnan(a), np.isnan(b)) and np.allclose(a, b, rtol=1e-9, atol=1e-12, equal_nan=True)
+    return a.shape == b.shape and np.array_equal(np.isnan(a), np.isnan(b)) and np.allclose(a, b, rtol=1e-9, atol=1e-8, equal_nan=True)
 
 
 def unique_best(row):
@@ -102,7 +102,13 @@ def relations(ctx, per_spec):
             nrs = np.random.RandomState(rng.randrange(2**31 - 1))
             n = rng.randint(6, 13)
             flavour = rng.choice(["random", "random", "grid", "duplicates"])
-            data = make_data(nrs, n, spec.kind, flavour, n_labeled=rng.randint(2, n - 3), classes=spec.classes or (0, 1, 2))
+            # a share of cold starts (no label at all) and single-label pools: strategies take their
+            # fallback branches there, where candidate bookkeeping differs between the addressings
+            r0 = rng.random()
+            n_lab = 0 if r0 < 0.2 else (1 if r0 < 0.3 else rng.randint(2, n - 3))
+            ctx.count("cold_start" if n_lab == 0 else ("single_label" if n_lab == 1 else "warm"))
+            data = make_data(nrs, n, spec.kind, flavour, n_labeled=n_lab, classes=spec.classes or (0, 1, 2))
+            cold = "/cold-start" if n_lab == 0 else ""   # precondition class of a finding
             unl = np.flatnonzero(np.isnan(data["y"]))
             seed = rng.randrange(10**6)
             b = rng.choice([1, 1, 2])
@@ -146,7 +152,7 @@ def relations(ctx, per_spec):
                 ctx.case((spec.name, "restrict", n, seed), True, sample=dict(summary(case), relation="restriction", subset=S.tolist()))
                 if not (e or e2):
                     if not close(Us[0][S], Uf[0][S]):
-                        ctx.violate(f"C08/{spec.name}.query/restriction/utilities-differ",
+                        ctx.violate(f"C08/{spec.name}.query/restriction/utilities-differ{cold}",
                                     f"{spec.name}: restricting the candidates to {S.tolist()} changes their first-step utilities", dict(case, relation="restriction", subset=S))
                     ctx.count("restriction_compared")
             # --- (c) permutation -------------------------------------------------------------------
@@ -158,7 +164,7 @@ def relations(ctx, per_spec):
                 ctx.case((spec.name, "permute", n, seed), True, sample=dict(summary(case), relation="permutation", perm=perm.tolist()))
                 if not (e or e2):
                     if not close(Up[0], Uf[0][perm]):
-                        ctx.violate(f"C08/{spec.name}.query/permutation/utilities-differ",
+                        ctx.violate(f"C08/{spec.name}.query/permutation/utilities-differ{cold}",
                                     f"{spec.name}: permuting the rows of (X, y) does not permute the utilities accordingly", dict(case, relation="permutation", perm=perm))
                     ctx.count("permutation_compared")
 
